@@ -162,3 +162,7 @@ trait CapAtImpl<'data>: Buffer<'data> {
     where
         Self: Sized;
 }
+
+#[cfg(any(kani, libtw2_verif))]
+#[path = "/verif/kani/buffer.rs"]
+mod verif_kani;
